@@ -192,6 +192,18 @@ def linked_bin(repo=REPO):
     walk(binu["bodies"])
     merged = {"crate": "linked", "kind": "bin+lib", "unit": "linked", "nonce": binu.get("nonce"),
               "bodies": dict(lib["bodies"]), "adts": dict(lib["adts"]), "impls": list(lib["impls"])}
+    def fix_local_calls(x):
+        if isinstance(x, dict):
+            if "path" in x and x.get("path") in binu["bodies"] and ("name" in x or "kind" in x):
+                x["path"] = "bin::" + x["path"]
+                if "local" in x:
+                    x["local"] = True
+            for v in x.values():
+                fix_local_calls(v)
+        elif isinstance(x, list):
+            for v in x:
+                fix_local_calls(v)
+    fix_local_calls(binu["bodies"])
     for k, b in binu["bodies"].items():
         merged["bodies"]["bin::" + k] = b
     # closures of main are referenced by their bin-local key
